@@ -225,6 +225,14 @@ example :
       = stepEvents (runT (fun m => m) convTailC turnW [] (ofConv 1 schedW)) := by
   decide
 
+/-- sanity / non-vacuity of `isolated_with_options` on a schedule with and without options (stand-in injective key) -/
+example :
+    let s : List (Nat × Option Str × List Msg) :=
+      [(0, some ['o'], [u ['a']]), (1, none, [u ['a', ':', 'b'], u ['x']]), (0, some ['o'], [u ['a'], a ['b'], u ['y']])]
+    stepEvents (ofConv 0 (runT (fun m => m) convTailC turnW [] (s.map fun x => (x.1, withOptions x.2.1 x.2.2))))
+      = stepEvents (runT (fun m => m) convTailC turnW [] ((ofConv 0 s).map fun x => (x.1, withOptions x.2.1 x.2.2))) := by
+  decide
+
 /-- `Compatible` cannot be dropped even for an injective key (here: the identity): conversation 1 sends
     as an explicit transcript exactly the history that conversation 0 produced turn by turn; on the shared
     instance it is continued from conversation 0's stored events (which include runtime events), alone it
